@@ -1,46 +1,38 @@
 /-
-Line-protocol driver over the executable models (core-only so it links).
-One request per line on stdin, one reply per line on stdout.
+Line-protocol driver over the executable models (core-only so it links as an executable).
+One request per line on stdin, one reply per line on stdout. The first word selects the
+family; each family lives in LA/Drv/<Family>.lean.
 -/
-import LA.Model.Reasm
+import LA.Drv.Reasm
+import LA.Drv.Conc
+import LA.Drv.Auparse
+import LA.Drv.Rule
+import LA.Drv.Client
+import LA.Drv.Coalesce
+import LA.Drv.Tables
 
-open LA
+open LA.Drv
 
 structure DState where
-  reasm : Reasm.St := Reasm.init 0 0
-
-def renderOuts (outs : List Reasm.Out) : String :=
-  if outs.isEmpty then "-" else
-  ";".intercalate (outs.map fun
-    | .group ms => "g:" ++ ",".intercalate (ms.map (fun m => toString m.id))
-    | .lost n => "lost:" ++ toString n
-    | .err => "err")
-
-def reasmCmd (s : DState) (args : List String) : DState × String :=
-  match args with
-  | ["new", m, t] =>
-    match m.toInt?, t.toInt? with
-    | some m, some t => ({ s with reasm := Reasm.init m t }, "ok")
-    | _, _ => (s, "bad-op")
-  | ["push", id, seq, typ, tp, tc] =>
-    match id.toNat?, seq.toNat?, typ.toNat?, tp.toInt?, tc.toInt? with
-    | some id, some seq, some typ, some tp, some tc =>
-      let r := Reasm.step s.reasm (.push ⟨id, seq, typ⟩ tp tc)
-      ({ s with reasm := r.1 }, renderOuts r.2)
-    | _, _, _, _, _ => (s, "bad-op")
-  | ["nil"] => (s, "-")
-  | ["fail"] => (s, "err")
-  | ["maintain", t] =>
-    match t.toInt? with
-    | some t => let r := Reasm.step s.reasm (.maintain t); ({ s with reasm := r.1 }, renderOuts r.2)
-    | none => (s, "bad-op")
-  | ["close"] => let r := Reasm.step s.reasm .close; ({ s with reasm := r.1 }, renderOuts r.2)
-  | ["buf"] => (s, ",".intercalate (s.reasm.buf.map (fun p => toString p.1)))
-  | _ => (s, "bad-op")
+  reasm : Reasm.State := Reasm.init
+  conc : Conc.State := Conc.init
+  aup : Auparse.State := Auparse.init
+  rule : Rule.State := Rule.init
+  cli : Client.State := Client.init
+  coal : Coalesce.State := Coalesce.init
+  tab : Tables.State := Tables.init
 
 def stepLine (s : DState) (line : String) : DState × String :=
-  match (line.trimAscii.toString.splitOn " ").filter (· ≠ "") with
-  | "reasm" :: args => reasmCmd s args
+  match words line with
+  | "reasm" :: args => let r := Reasm.cmd s.reasm args; ({ s with reasm := r.1 }, r.2)
+  | "conc" :: args => let r := Conc.cmd s.conc args; ({ s with conc := r.1 }, r.2)
+  | "aup" :: args => let r := Auparse.cmd s.aup args; ({ s with aup := r.1 }, r.2)
+  | "rule" :: args => let r := Rule.cmd s.rule args; ({ s with rule := r.1 }, r.2)
+  | "flags" :: args => let r := Rule.cmd s.rule ("flags" :: args); ({ s with rule := r.1 }, r.2)
+  | "cli" :: args => let r := Client.cmd s.cli args; ({ s with cli := r.1 }, r.2)
+  | "nl" :: args => let r := Client.cmd s.cli ("nl" :: args); ({ s with cli := r.1 }, r.2)
+  | "coal" :: args => let r := Coalesce.cmd s.coal args; ({ s with coal := r.1 }, r.2)
+  | "tab" :: args => let r := Tables.cmd s.tab args; ({ s with tab := r.1 }, r.2)
   | _ => (s, "bad-op")
 
 partial def loop (hin hout : IO.FS.Stream) (s : DState) : IO Unit := do
